@@ -57,9 +57,13 @@ def near_key(rng, members):
             q = list(p)
             q[-1] = max(0, min(15, q[-1] + rng.choice([-1, 1])))
             return q
-        if r < 0.85:
+        if r < 0.8:
             return p[:-1] + [15, 15] if p else [15]
-        return p[:-1] + [0] if p else [0]
+        if r < 0.88:
+            return p[:-1] + [0] if p else [0]
+        # a key between two siblings, at the 7/8 boundary where the padded distances (15 below, 0 above) tie or nearly tie
+        q = p[:-1] + [max(0, min(15, p[-1] + rng.choice([-1, 1])))] if p else []
+        return q + [rng.choice([7, 8]) for _ in range(rng.randint(1, 3))] + [rng.choice([0, 7, 8, 15])]
     return [rng.randrange(16) for _ in range(rng.randint(0, 4))]
 
 
